@@ -1,21 +1,28 @@
 """C02 - every unit's scale and dimension agree with its definition."""
+import contextlib
+import hashlib
 import random
 from fractions import Fraction
 
 from .common import EXPONENTS, PREFIX, And, Case, call, close, payload
 from .names_common import (DEFS, DEFS_BRACKET, DEFS_POW, OFFSETS, PREFIX_SYMS, TOL, dimvec, expected, float_q, label_of, oracle_var,
-                           sym_registry, tables, unit_ok, vec_add, within)
+                           readings, sym_registry, tables, unit_ok, vec_add, within)
 
 LEVEL = "other"
 MANIFEST = dict(
     category="other",
     text=("(a) Bounded symbolic execution of the real unit construction (parse_unyt_expr, _auto_positive_symbol, "
           "_lookup_unit_symbol, _split_prefix, _get_unit_data_from_expr, Unit.__new__/__mul__/__truediv__/__pow__, "
-          "_get_conversion_factor, in_units, define_unit) against a registry whose ~145 base scales are z3 reals: for every name and for "
-          "generated compound expressions (<= 4 factors, rational exponents, sqrt, parentheses, coefficients) z3 proves "
-          "base_value == coeff * prod(prefix_i*s_i)**e_i for ALL scales, dimensions by an independent exponent-vector algebra, "
-          "and x.to(u2) == x*scale(u1)/scale(u2) for all x. (b) GROUND: each of the 145 table rows (and the prefix table) against "
-          "an independently written definition table as exact-rational z3 facts |row-def| <= tol*def."),
+          "_get_conversion_factor, in_units, define_unit, UnitRegistry.modify/add/remove) against a registry whose ~145 base scales are "
+          "z3 reals: for every name and for generated compound expressions (<= 4 factors, rational exponents, sqrt, parentheses, "
+          "coefficients) z3 proves base_value == coeff * prod(prefix_i*s_i)**e_i for ALL scales, dimensions by an independent "
+          "exponent-vector algebra, and x.to(u2) == x*scale(u1)/scale(u2) for all x. Two further discrete axes are walked with the same "
+          "symbolic scales: HISTORY (every name / a slice of the expressions and pairs is requested, the definition of a constituent "
+          "symbol is then edited through modify, add or remove+add with a fresh symbolic scale, and the same spelling must follow the "
+          "new definition) and ARGUMENT FORM (the unit handed over as a quantity v*u with v a z3 real, at Unit(), to, in_units, "
+          "convert_to_units, to_value, unyt_array(), unyt_quantity(); as bytes, Unit object, Unit of another registry, sympy "
+          "expression; string coefficients in 9 magnitude classes). (b) GROUND: each of the 145 table rows (and the prefix table) "
+          "against an independently written definition table as exact-rational z3 facts |row-def| <= tol*def."),
     design="DESIGN.md section 4 C02",
     technique="symbolic execution of the real Python code over z3 real terms (QF_NRA with root witnesses); ground exact-rational SMT facts; replay")
 EXPLANATION = (
@@ -25,21 +32,47 @@ EXPLANATION = (
     "it over the same scale symbols; dimensions are compared as exponent vectors over the base dimensions. Part (b) is GROUND: the "
     "quantifier is the finite set of table rows; each float of the current table is compared, as an exact rational, with an exact "
     "legal/SI definition (tolerance 8 ulp), a published rounded value (1e-7) or a measured value's class (CODATA 1e-6, IAU 1e-3); "
-    "z3 adds nothing there over evaluation except a uniform logged discharge. The definition table is the trusted base of (b)."
+    "z3 adds nothing there over evaluation except a uniform logged discharge. The definition table is the trusted base of (b). "
+    "History axis (C02/names-edited, expr-edited, to-edited): 'the definition' of a unit is what the registry says NOW. Each spelling is "
+    "requested first (so that whatever unyt memoises per spelling exists), then the canonical symbol behind it - one symbol at a time - "
+    "gets a new scale (a fresh solver symbol) through the public calls modify / add over the row / remove followed by add, and the same "
+    "spelling, its square, compound strings containing it and conversions to and from it must equal the oracle evaluated over the new "
+    "scale for all old and new scales; after remove a spelling without another reading must be refused. Argument-form axis (C02/form): "
+    "every entry point that takes a unit is given the unit as a quantity v*u; v is a solver symbol over all positive reals, so a decision "
+    "the library takes on the NUMBER (v == 1, v close to 1 ...) forks the path and the scale v*scale(u) is proved on every branch. "
+    "While such a case runs, a symbolic number that unyt multiplies into a sympy expression is carried as a positive sympy Symbol with a "
+    "dimensionless registry row of that name (sympy cannot hold a solver term); see ASSUMPTIONS."
 )
+ASSUMPTIONS = ["C02/form: the symbolic coefficient v of a quantity-valued unit enters unyt's sympy expression as a positive Symbol whose "
+               "registry row is (v, dimensionless) (harness.c02.symbolic_coefficients, a sympy converter active only inside these cases; "
+               "numerals become sympy Floats as for a float). unyt's own code decides whether and how the number enters the expression "
+               "and evaluates the product; float(<sympy Number>) of _get_unit_data_from_expr is exercised by the string route only, "
+               "with coefficients from enumerated magnitude classes"]
 BOUNDS = {
     "quick": "all 3872 exposed names (string route); 400 generated compound expressions (1-4 factors, exponents from E, sqrt, parentheses, "
              "coefficients) by string and - where at most one root of a compound sub-expression occurs, un-nested - by operator route; 160 compound and ~300 atomic commensurable conversion pairs with symbolic x; "
              "all 145 table rows + 22 prefixes (ground); define_unit (tuple and quantity form, prefixable) over 5 definition shapes x "
-             "{mks, cgs} + a third of the other 5 built-in unit systems as the registry's system, value and defining scales symbolic",
+             "{mks, cgs} + a third of the other 5 built-in unit systems as the registry's system, value and defining scales symbolic; "
+             "HISTORY: all names x {modify, add, remove+add} (name and name**2 after the edit of its own symbol, new scale symbolic), every "
+             "3rd chunk of the expressions and every 4th chunk of the pairs with one constituent symbol edited (editing call rotating); "
+             "ARGUMENT FORM: 24 unit expressions (12 compound, 12 atomic pairs) x {Unit, to, in_units, convert_to_units, to_value, unyt_array, "
+             "unyt_quantity} with the unit given as a quantity of symbolic coefficient v > 0, x {bytes, Unit, Unit of another registry, sympy "
+             "expression}, x 9 coefficient magnitude classes x 2 shapes in strings",
     "thorough": "all names; 6000 generated expressions (1-5 factors); 2000 compound pairs (<= 1 square root, |exponent| <= 3); every ordered pair of table symbols sharing a dimension "
-                "(~1100, with SI prefixes on prefixable ones); all rows (ground); define_unit over 5 definition shapes x 7 registry unit systems x 2 forms",
+                "(~1100, with SI prefixes on prefixable ones); all rows (ground); define_unit over 5 definition shapes x 7 registry unit systems x 2 forms; "
+                "HISTORY: all names x 3 editing calls, every 4th chunk of the expressions and every 5th chunk of the pairs; ARGUMENT FORM: 160 unit "
+                "expressions x 7 entry points x symbolic coefficient, x 4 non-string forms, x 9 coefficient classes",
 }
 OUTSIDE = ("unit strings that unyt rejects (acceptance of documented names is C14); offset units in conversions and compounds (C03/C08); "
            "logarithmic units in compounds; exponents outside E and root denominators > 6; IEEE rounding (A1); correctness of the "
-           "independent definition table (trusted base of part b)")
+           "independent definition table (trusted base of part b); histories other than request -> one edit of a constituent symbol -> "
+           "request (longer edit sequences, copies of registries, units created before the edit: C12/C13); the new value of modify given "
+           "as a quantity (C12); coefficients of a quantity-valued unit that are zero or negative; the numeric value of a coefficient "
+           "written inside a unit STRING is not symbolic (sympy Number): 9 magnitude classes are enumerated, a defect that depends on "
+           "another value of such a coefficient is not seen")
 CONFORM = {"quick": 12, "thorough": 24}
 CHUNK = 100
+CHUNK_EDITED = 50     # smaller: on a tree where every alias fails, the counterexample models of one case stay affordable
 SEED = 20260929
 
 
@@ -447,6 +480,272 @@ def atomic_pairs(tier):
     return [p for p in out if p[0][1].name != p[1][1].name]
 
 
+# ------------------------------------------------------------------------------------------------ history axis: edited registries
+
+EDIT_OPS = ["modify", "add", "readd"]
+
+
+def edit_symbol(ctx, reg, S, sym, tag, op, name=None):
+    """The registry's definition of `sym` is replaced THROUGH THE PUBLIC EDITING CALLS by a fresh scale (a new solver symbol):
+      modify   reg.modify(sym, new)
+      add      reg.add(sym, new, dims, ...) over the existing row
+      readd    reg.remove(sym) [a spelling `name` that has no other reading must now be refused], then reg.add(sym, new, dims, ...)
+    S[sym] is updated to what the registry's table now says by definition."""
+    row = reg.lut[sym]
+    new = ctx.real(f"t:{tag}", pos=True)
+    if op == "modify":
+        reg.modify(sym, new)
+    elif op == "add":
+        reg.add(sym, new, row[1], tex_repr=row[3], offset=float(row[2]), prefixable=row[4])
+    elif op == "readd":
+        reg.remove(sym)
+        if name is not None:
+            T = tables()
+            other = [r for r in readings(name, T) if r[2] != sym]
+            if not other:       # no reading of this spelling survives the removal: no definition implies any scale
+                r = call(ctx.mods["unyt"].Unit, name, registry=reg)
+                ctx.require(f"removed symbol is refused under every spelling/{label_of(name, T)}", r[0] == "raise", name=name, removed=sym,
+                            got=str(r[1])[:80])
+        reg.add(sym, new, row[1], tex_repr=row[3], offset=float(row[2]), prefixable=row[4])
+    else:
+        raise KeyError(op)
+    S[sym] = new
+    return new
+
+
+def make_names_edited_case(op, k, chunk):
+    """history axis for names: every spelling is requested (so whatever unyt memoises per spelling exists), THEN the definition of
+    its canonical symbol is edited (one symbol at a time: an edit of all symbols at once would hide a cache that is dropped
+    per symbol), then the same spelling - alone and squared - must follow the registry's new definition"""
+    def h(ctx):
+        Unit = ctx.mods["unyt"].Unit
+        T = tables()
+        reg, S = sym_registry(ctx)
+        pool = {a.name for a in atom_pool(ctx.mods)}
+        for name in chunk:                                      # ordinary use before any edit
+            call(Unit, name, registry=reg)
+        n_ok = 0
+        for i, name in enumerate(chunk):
+            exp = expected(name, T)
+            if exp is None or exp[1] == "dimensionless" or T.rows[exp[1]][0] <= 0:
+                continue
+            pv, sym = exp
+            r0 = call(Unit, name, registry=reg)                 # (again, right before the edit: earlier edits may have emptied the memo)
+            if r0[0] == "raise":
+                continue
+            compound = name in pool
+            if compound:
+                call(Unit, f"{name}**2", registry=reg)
+            edit_symbol(ctx, reg, S, sym, f"{i}", op, name=name)
+            r = call(Unit, name, registry=reg)
+            if r[0] == "raise":
+                ctx.require(f"edited name still accepted/{label_of(name, T)}", False, name=name, op=op, exc=str(r[1])[:120])
+                continue
+            E = oracle_var(ctx, f"e:{i}", S[sym] * pv)
+            ok = unit_ok(ctx, r[1], E, T, exp)
+            if compound:
+                r2 = call(Unit, f"{name}**2", registry=reg)
+                ok = And(ok, r2[0] == "ok" and close(r2[1].base_value, E * E))
+            # one obligation per spelling (scale, dimensions, offset of the name; scale of its square). Conversions after an edit
+            # are C02/to-edited: they fork on unit equality, and every fork would repeat all obligations of this case
+            ctx.require(f"name after {op}/{label_of(name, T)}", ok, name=name, expected=f"{pv}*new scale of {sym}")
+            ctx.observe(f"edited/{name}", r[1].base_value)
+            n_ok += 1
+        ctx.require("most names of the chunk are accepted", n_ok * 2 >= len(chunk))
+    return Case(f"C02/names-edited/{op}/{k:02d}", h, bounds=f"{len(chunk)} names, each requested, its symbol edited by {op}, requested again",
+                budget_s=600, weight=4, max_paths=64)
+
+
+def make_expr_edited_case(op, k, trees):
+    """history axis for compound expressions: the string is requested, one of its constituent symbols is edited, the string is
+    requested again (string route) and rebuilt with operators from freshly requested atoms"""
+    def h(ctx):
+        Unit = ctx.mods["unyt"].Unit
+        T = tables()
+        reg, S = sym_registry(ctx)
+        for i, t in enumerate(trees):
+            s = render(t)
+            if call(Unit, s, registry=reg)[0] == "raise":
+                continue        # 'parses' is an obligation of C02/expr
+            ats = atoms_of(t)
+            for a in ats:
+                call(Unit, a.name, registry=reg)
+            a = ats[(k + i) % len(ats)]
+            edit_symbol(ctx, reg, S, a.sym, f"{i}", op)
+            r = call(Unit, s, registry=reg)
+            if r[0] == "raise":
+                ctx.require(f"edited expression still accepted/{k}.{i}", False, expr=s, exc=str(r[1])[:120])
+                continue
+            E = oracle_var(ctx, f"e:{i}", oracle_scale(t, S))
+            ctx.require(f"compound scale after {op} (string)/{k}.{i}", close(r[1].base_value, E), expr=s, edited=a.sym)
+            ctx.require(f"compound dimensions after {op} (string)/{k}.{i}", dimvec(r[1].dimensions) == oracle_dims(t, T), expr=s)
+            ctx.observe(f"expr/{i}", r[1].base_value)
+            if operator_route_ok(t):
+                ro = call(structural, t, {b.name: Unit(b.name, registry=reg) for b in ats})
+                if ro[0] == "ok":
+                    E2 = oracle_var(ctx, f"o:{i}", struct_scale(t, S))
+                    ctx.require(f"compound scale after {op} (operators)/{k}.{i}", close(ro[1].base_value, E2), expr=s, edited=a.sym)
+    return Case(f"C02/expr-edited/{op}/{k:03d}", h, bounds=f"{len(trees)} generated expressions, one constituent symbol edited by {op}",
+                budget_s=600, weight=4, max_paths=64)
+
+
+def make_to_edited_case(op, tag, k, pairs):
+    """history axis for conversions: x.to(u2) is done once, a constituent symbol of u1 or u2 is edited, a NEW quantity (same unit
+    string) is converted again: x * scale(u1)/scale(u2) with the registry's new definitions"""
+    def h(ctx):
+        Unit = ctx.mods["unyt"].Unit
+        reg, S = sym_registry(ctx)
+        for i, (t1, t2) in enumerate(pairs):
+            s1, s2 = render(t1), render(t2)
+            x = ctx.real(f"x{i}")
+            call(Unit, s1, registry=reg)
+            call(Unit, s2, registry=reg)
+            with ctx.warmup(f"pre{i}!"):
+                r0 = call(ctx.quantity(ctx.real("x"), s1, reg).to, s2)
+            if r0[0] == "raise":
+                continue
+            ats = atoms_of(t2) + atoms_of(t1)
+            a = ats[(k + i) % len(ats)]
+            edit_symbol(ctx, reg, S, a.sym, f"{i}", op)
+            r = call(ctx.quantity(x, s1, reg).to, s2)
+            if r[0] == "raise":
+                ctx.require(f"converts after {op}/{tag}.{k}.{i}", False, frm=s1, to=s2, exc=str(r[1])[:120])
+                continue
+            E = oracle_var(ctx, f"e:{i}", x * oracle_scale(t1, S) / oracle_scale(t2, S))
+            ctx.require(f"to == x*scale1/scale2 after {op}/{tag}.{k}.{i}", close(payload(r[1])[0], E), frm=s1, to=s2, edited=a.sym)
+            ctx.observe(f"to/{i}", payload(r[1])[0])
+    return Case(f"C02/to-edited/{op}/{tag}-{k:03d}", h, bounds=f"{len(pairs)} commensurable pairs, one constituent symbol edited by {op}",
+                budget_s=600, weight=6, max_paths=256)
+
+
+# ------------------------------------------------------------------------------------------------ argument-form axis
+
+def coef_name(v):
+    return "xqc" + hashlib.sha1(v.t.sexpr().encode()).hexdigest()[:12]
+
+
+@contextlib.contextmanager
+def symbolic_coefficients(ctx, reg):
+    """A unit may be handed over as a QUANTITY (Unit(q), x.to(q), unyt_array(data, q) ...): unyt multiplies the quantity's number
+    into the sympy unit expression. A sympy expression cannot hold a solver term, so while this context is active a symbolic
+    number entering sympy becomes a positive sympy Symbol and a dimensionless row of that name whose scale is the number is put
+    into `reg` (numerals become sympy Floats, as for a float). unyt's own code decides whether/how the number enters the
+    expression and computes the scale from it (Mul branch of _get_unit_data_from_expr); what is NOT exercised on this route is
+    float(<sympy Number>) for the coefficient - that is the string route with numeric coefficients. No-op in concrete mode."""
+    if not ctx.symbolic:
+        yield
+        return
+    import sympy
+    import z3
+    from sympy.core.sympify import converter
+    from symx.core import SymReal, model_value
+    one = ctx.mods["unyt"].dimensions.dimensionless
+
+    def conv(a):
+        if z3.is_rational_value(z3.simplify(a.t)):
+            return sympy.Float(float(Fraction(z3.simplify(a.t).as_fraction())))
+        n = coef_name(a)
+        reg.lut[n] = (a, one, 0.0, r"\rm{" + n + "}", False)
+        return sympy.Symbol(n, positive=True)
+    prev = converter.get(SymReal)
+    converter[SymReal] = conv
+    try:
+        yield
+    finally:
+        if prev is None:
+            converter.pop(SymReal, None)
+        else:
+            converter[SymReal] = prev
+
+
+FORM_ENTRIES = ["Unit", "to", "in_units", "convert_to_units", "to_value", "unyt_array", "unyt_quantity", "plain", "coefficient"]
+# In a unit STRING the coefficient is a sympy Number and cannot be a solver symbol: its magnitude classes are enumerated instead
+# (exactly one, within 1e-5 / 1e-10 of one, tiny, huge, many digits, negative exponent notation)
+COEF_CLASSES = ["1", "1.0", "1.000004", "0.99999", "1.0000000001", "1e-30", "6.02214076e+23", "123456789.125", "0.001"]
+
+
+def make_form_case(entry, k, pairs):
+    """argument-form axis: the unit expression u2 is not given as a string but as a quantity v*u2 (v a solver symbol, all v > 0),
+    at every entry point that takes a unit; 'plain' = the other non-string forms (bytes, Unit object, Unit of another registry,
+    sympy expression). The unit meant is v*u2: scale v*scale(u2), and x.to(it) = x*scale(u1)/(v*scale(u2))."""
+    def h(ctx):
+        unyt = ctx.mods["unyt"]
+        Unit = unyt.Unit
+        T = tables()
+        reg, S = sym_registry(ctx)
+        with symbolic_coefficients(ctx, reg):
+            for i, (t1, t2) in enumerate(pairs):
+                s1, s2 = render(t1), render(t2)
+                E1, E2 = oracle_scale(t1, S), oracle_scale(t2, S)
+                lab = f"{k}.{i}"
+                if entry == "plain":
+                    forms = {"bytes": lambda: Unit(s2.encode("utf-8"), registry=reg),
+                             "Unit object": lambda: Unit(Unit(s2, registry=reg), registry=reg),
+                             "Unit of another registry": lambda: Unit(Unit(s2), registry=reg),
+                             "sympy expression": lambda: Unit(Unit(s2, registry=reg).expr, registry=reg)}
+                    E = oracle_var(ctx, f"e:{i}", E2)
+                    for fname, f in forms.items():
+                        r = call(f)
+                        ctx.require(f"scale of a unit given as {fname}/{lab}", r[0] == "ok" and close(r[1].base_value, E), expr=s2,
+                                    got=str(r[1])[:80])
+                        if r[0] == "ok":
+                            ctx.require(f"dimensions of a unit given as {fname}/{lab}", dimvec(r[1].dimensions) == oracle_dims(t2, T), expr=s2)
+                    continue
+                if entry == "coefficient":
+                    for c in COEF_CLASSES:
+                        for shape, txt, val in (("c*(u)", f"{c}*({s2})", float(c) * E2), ("(u)/c", f"({s2})/{c}", E2 / float(c))):
+                            r = call(Unit, txt, registry=reg)
+                            ctx.require(f"scale of {shape} in a string, c={c}/{lab}", r[0] == "ok" and close(r[1].base_value, val), expr=txt,
+                                        got=str(r[1])[:80])
+                    continue
+                v = ctx.real(f"v{i}", pos=True)
+                q = ctx.quantity(v, s2, reg)                      # the unit handed over: v*u2
+                x = ctx.real(f"x{i}")
+                Eu = oracle_var(ctx, f"u:{i}", v * E2)
+                Ex = oracle_var(ctx, f"e:{i}", x * E1 / (v * E2))
+                info = dict(unit=f"v*({s2})", frm=s1)
+                if entry == "Unit":
+                    r = call(Unit, q, registry=reg)
+                    ctx.require(f"scale of Unit(quantity)/{lab}", r[0] == "ok" and close(r[1].base_value, Eu), got=str(r[1])[:80], **info)
+                    if r[0] == "ok":
+                        ctx.require(f"dimensions of Unit(quantity)/{lab}", dimvec(r[1].dimensions) == oracle_dims(t2, T), **info)
+                        ctx.observe(f"unitq/{i}", r[1].base_value)
+                elif entry in ("to", "in_units", "to_value"):
+                    src = ctx.quantity(x, s1, reg)
+                    r = call(getattr(src, entry), q)
+                    ctx.require(f"x.{entry}(quantity) == x*scale1/(v*scale2)/{lab}", r[0] == "ok" and close(payload(r[1])[0], Ex),
+                                got=str(r[1])[:80], **info)
+                    if r[0] == "ok" and entry != "to_value":
+                        ctx.require(f"x.{entry}(quantity) is labelled with a unit of scale v*scale2/{lab}", close(r[1].units.base_value, Eu), **info)
+                    if r[0] == "ok":
+                        ctx.observe(f"{entry}/{i}", payload(r[1])[0])
+                elif entry == "convert_to_units":
+                    src = ctx.quantity(x, s1, reg)
+                    r = call(src.convert_to_units, q)
+                    ctx.require(f"x.convert_to_units(quantity) == x*scale1/(v*scale2)/{lab}", r[0] == "ok" and close(payload(src)[0], Ex),
+                                got=str(r[1])[:80], **info)
+                    if r[0] == "ok":
+                        ctx.require(f"x.convert_to_units(quantity) is labelled with a unit of scale v*scale2/{lab}",
+                                    close(src.units.base_value, Eu), **info)
+                        ctx.observe(f"{entry}/{i}", payload(src)[0])
+                else:
+                    ctor = getattr(unyt, entry)
+                    data = x if entry == "unyt_quantity" else ctx.reals(f"x{i}", (1,))
+                    if ctx.symbolic and entry == "unyt_quantity":
+                        from symx.core import obj0
+                        data = obj0(x)
+                    r = call(ctor, data, q, registry=reg)
+                    ctx.require(f"{entry}(data, quantity) carries a unit of scale v*scale2/{lab}", r[0] == "ok" and close(r[1].units.base_value, Eu),
+                                got=str(r[1])[:80], **info)
+                    if r[0] == "ok":
+                        back = call(r[1].to, s2)
+                        x0 = x if entry == "unyt_quantity" else data[0]
+                        ctx.require(f"{entry}(data, quantity) in the plain unit == v*x/{lab}", back[0] == "ok" and close(payload(back[1])[0], x0 * v), **info)
+                        ctx.observe(f"{entry}/{i}", r[1].units.base_value)
+    return Case(f"C02/form/{entry}/{k:03d}", h, bounds=f"{len(pairs)} unit expressions handed over as quantities with symbolic coefficient / non-string forms",
+                budget_s=600, weight=4, max_paths=256)
+
+
 def make_table_case():
     """GROUND: every row of the current table against the independent definition table, as exact rationals"""
     def h(ctx):
@@ -543,6 +842,24 @@ def cases(tier, mods):
     ap = atomic_pairs(tier)
     for k in range(0, len(ap), 3):
         out.append(make_to_case("atomic", k // 3, ap[k:k + 3]))
+    # history axis: the same three families after an edit of the registry (every name x every editing call; a slice of the
+    # generated expressions and pairs, editing call rotating)
+    for k in range(0, len(names), CHUNK_EDITED):
+        for op in EDIT_OPS:
+            out.append(make_names_edited_case(op, k // CHUNK_EDITED, names[k:k + CHUNK_EDITED]))
+    step_e, step_p = (3, 4) if tier == "quick" else (4, 5)
+    for j, k in enumerate(range(0, len(trees), per_e * step_e)):
+        out.append(make_expr_edited_case(EDIT_OPS[j % len(EDIT_OPS)], k // per_e, trees[k:k + per_e]))
+    for j, k in enumerate(range(0, len(pairs), per_p * step_p)):
+        out.append(make_to_edited_case(EDIT_OPS[j % len(EDIT_OPS)], "compound", k // per_p, pairs[k:k + per_p]))
+    for j, k in enumerate(range(0, len(ap), 3 * step_p)):
+        out.append(make_to_edited_case(EDIT_OPS[(j + 1) % len(EDIT_OPS)], "atomic", k // 3, ap[k:k + 2]))
+    # argument-form axis: the unit handed over as a quantity with symbolic coefficient / as bytes, Unit, sympy expression
+    n_form = 6 if tier == "quick" else 40
+    fp = pairs[1::max(1, len(pairs) // (2 * n_form))][:2 * n_form] + ap[2::max(1, len(ap) // (2 * n_form))][:2 * n_form]
+    for e, entry in enumerate(FORM_ENTRIES):
+        for k in range(0, len(fp), 2):
+            out.append(make_form_case(entry, k // 2, fp[k:k + 2]))
     return out
 
 
